@@ -90,10 +90,10 @@ def make_primitive(var):
     return obj
 
 
-def exercise(state, evt, role, artim_pre, var, before=None):
+def exercise(state, evt, role, artim_pre, var, before=None, shutdown_fault=False):
     """Returns observation dict.  before = (event, variant) of an UNDEFINED combination applied first: it has no
     effect, so the cell exercised after it behaves as if it had never happened."""
-    sim = simnet.Sim(role, [])
+    sim = simnet.Sim(role, [], shutdown_fault=shutdown_fault)
     with sim.patched():
         p = sim.build()
         sm = p.state_machine
@@ -112,6 +112,8 @@ def exercise(state, evt, role, artim_pre, var, before=None):
             p.primitive = make_primitive(before[1])
             try:
                 sm.action(before[0] - 1)
+            except HarnessError:
+                raise
             except BaseException:     # noqa - judged by the enumeration of the undefined cell itself
                 pass
             if sim.log or sm.current_state != state - 1 or (p.dul_socket is None) != (not has_transport):
@@ -120,6 +122,8 @@ def exercise(state, evt, role, artim_pre, var, before=None):
         exc = None
         try:
             sm.action(evt - 1)
+        except HarnessError:
+            raise
         except BaseException as e:     # noqa - includes simnet.Hang
             exc = e
         return {
@@ -277,6 +281,23 @@ def run(ctx):
                     for var in variants(evt, state):
                         if one(ctx, state, evt, role, artim_pre, var, 'enumeration'):
                             cells.add((state, evt))
+    # the actions that close the transport, once more on a connection the peer has reset: a shutdown() the
+    # implementation may call before close() fails with ENOTCONN there - closing is still closing
+    for (evt, state), (action, nxt) in sorted(ulmodel.TABLE.items()):
+        if not ulmodel.ACTIONS[action]['close'] or evt == 17:
+            continue
+        for role in ('requestor', 'acceptor'):
+            if ulmodel.lookup(evt, state, role) is None:
+                continue
+            for var in variants(evt, state)[:2]:
+                obs = exercise(state, evt, role, False, var, shutdown_fault=True)
+                ctx.case((state, evt, role, var, 'shutdown-fault'), True, labels=['shutdown-fails', 'evt=%d' % evt],
+                         sample={'state': state, 'event': evt, 'role': role, 'shutdown()': 'ENOTCONN'})
+                try:
+                    judge(state, evt, role, False, var, obs)
+                except Violation as v:
+                    v.case['shutdown_fault'] = True
+                    ctx.fail(v.key + ':shutdown-fails', v.what + ' [shutdown() on the transport fails with ENOTCONN]', v.case)
     ctx.extra['defined_cells_exercised'] = len(cells)
     if len(cells) != 123:
         raise HarnessError('only %d of 123 defined cells exercised' % len(cells))
@@ -326,7 +347,8 @@ def run(ctx):
 def replay(case):
     quiet_warnings()
     before = tuple(case['before']) if case.get('before') else None
-    obs = exercise(case['state'], case['event'], case['role'], case['artim_pre'], case['variant'], before=before)
+    obs = exercise(case['state'], case['event'], case['role'], case['artim_pre'], case['variant'], before=before,
+                   shutdown_fault=case.get('shutdown_fault', False))
     if obs is None:
         print('the undefined event had an immediate effect (reported by the plain enumeration)')
         return
